@@ -417,6 +417,36 @@ theorem cff_charset_range_seek_terminates (gid : Nat) : ∀ (rs : List (Nat × N
 example : charsetSeek 10 [(5, 3), (9, 1), (20, 40)] 2 0 = (3, false) := by decide
 example : charsetSeek 10 [(5, 3)] 2 0 = (2, true) := by decide
 
+/-! ### DICT parsing: `parse_bcd`, `entries` -/
+
+/-- a one-item-per-turn consumer loop runs at most (items left + 1) turns and never lengthens its source -/
+theorem consume_loop_terminates {α : Type} (stop : α → Bool) : ∀ (l : List α) (t : Nat),
+    (consumeLoop stop l t).1 ≤ t + l.length + 1 ∧ (consumeLoop stop l t).2.length ≤ l.length := by
+  intro l
+  induction l with
+  | nil => intro t; simp [consumeLoop]
+  | cons a rest ih =>
+    intro t
+    unfold consumeLoop
+    split
+    · simp <;> omega
+    · have := ih (t + 1); simp at this ⊢; omega
+
+/-- **`parse_bcd` terminates** within (remaining bytes of the cursor + 1) turns of its `'outer: loop`, whatever the
+nibbles are -/
+theorem cff_parse_bcd_terminates (stop : Nat → Bool) (bytes : List Nat) :
+    (consumeLoop stop bytes 0).1 ≤ bytes.length + 1 := by
+  have := (consume_loop_terminates stop bytes 0).1; omega
+
+/-- **one `next()` of the DICT `entries` iterator terminates** within (remaining tokens + 1) turns of its `loop`, and
+leaves no more tokens than it found -/
+theorem cff_dict_entries_next_terminates {Tok : Type} (stop : Tok → Bool) (tokens : List Tok) :
+    (consumeLoop stop tokens 0).1 ≤ tokens.length + 1 ∧ (consumeLoop stop tokens 0).2.length ≤ tokens.length := by
+  have := consume_loop_terminates stop tokens 0; omega
+
+example : consumeLoop (fun b => b % 16 == 15 || b / 16 == 15) [0x12, 0x34, 0x5f, 0x99] 0 = (3, [0x99]) := by decide
+example : consumeLoop (fun _ : Nat => false) [1, 2, 3] 0 = (4, []) := by decide
+
 /-! ### From the entry states of the Rust
 
 Indices are offsets from `contour.first()`, so `contour.first()` is 0 and a contour (`first_ix ..= last_ix`) has
